@@ -167,7 +167,7 @@ theorem for_core (cx : Cx) (fuel : Nat) (env : Src.Env) (he : EnvOK cx env) (lb 
     have hafter : R2 cx m' j' ⟨r, i0 + ii.length + 3 + ops.length + 2⟩ RI.2 := by
       have e : i0 + ii.length + 3 + ops.length + 2 = i0 + ii.length + ops.length + 5 := by omega
       rw [e]; exact hinc
-    have := loop_body_run cx hPe sL eB _ hpBlk RI.2 RI.1 (by rw [hRB]; exact agB) m' j' hex' hinB hafter
+    have := loop_body_run cx hPe sL eB _ hpBlk RI.2 RI.1 (by rw [hRB]; exact agB) m' j' hex' hinB (fun _ => hafter)
     rw [hRB] at this; exact this
   have hhead : ∀ m j, ExitsOK cx m j s env ∧ R2 cx m j ⟨r, i0 + (ii.length + ops.length + ee.length + 9)⟩ k →
       R2 cx m j ⟨r, i0 + ii.length + ops.length + ee.length + 6⟩ (tbl b).length := by
